@@ -380,6 +380,20 @@ class Tagged1(TaggedUnion):
     b: Tagged[str]
     c: Tagged[List[int]]
 
+# a discriminated base with (so far) a single subclass
+@discriminator("kind")
+@dataclass
+class Solo:
+    pass
+@dataclass
+class OnlyKid(Solo):
+    n: int = 0
+
+# only in C13 (a genuine defect recorded as a known finding: the other users of this world read EXPECT)
+EXPECT_C13_ONLY = {
+    "SingleChild": (Solo, "kind", {"OnlyKid": OnlyKid}, set()),
+}
+
 # expectations: name -> (union type, mapping key -> alternative class, declares_field set)
 EXPECT = {
     "Default": (Default, "type", {"Cat": Cat, "Dog": Dog}, set()),
@@ -404,7 +418,7 @@ EXPECT = {
 def run_discriminated(st: infra.Stats, tier: str):
     mod = exec_source(PRELUDE + DISC_SRC)
     values = [0, 1, "a", None, [], {}, True, 1.5]
-    for name, (utp, key, mapping, declares) in mod.EXPECT.items():
+    for name, (utp, key, mapping, declares) in list(mod.EXPECT.items()) + list(mod.EXPECT_C13_ONLY.items()):
         for coerce in (False, True):
             try:
                 um = apischema.deserialization_method(utp, coerce=coerce)
